@@ -46,10 +46,19 @@ def coq_string(s):
     return '"' + s.replace('"', '""') + '"'
 
 
+def coq_zlist(xs, chunk=400):
+    """Coq list literal; long lists are written as a concatenation of chunks (the list notation is parsed recursively)."""
+    xs = [str(x) for x in xs]
+    if len(xs) <= chunk:
+        return "[" + ";".join(xs) + "]"
+    parts = ["[" + ";".join(xs[i:i + chunk]) + "]" for i in range(0, len(xs), chunk)]
+    return "(" + " ++ ".join(parts) + ")"
+
+
 def prog_term(p):
     dumps = []
     for d in (p.get("dumps") or []):
-        dumps.append("(mkdump [%s] [%s] [%s] %d %d)" % (";".join(str(x) for x in (d.get("code") or [])),
+        dumps.append("(mkdump %s [%s] [%s] %d %d)" % (coq_zlist(d.get("code") or []),
                                                          "; ".join(d.get("consts") or []), "; ".join(d.get("iconsts") or []),
                                                          d["nobj"], d["nint"]))
     calls = []
@@ -102,7 +111,8 @@ def run(c):
         tmp = os.path.join(c.work, "tmp-%d" % seed)
         args = ["-seed", str(seed), "-n", str(n), "-tuples", str(tuples), "-feat", feat, "-tmp", tmp]
         if corpus:
-            args += ["-corpus", os.path.join(c.verif, "corpus", "C04")]
+            cdir = os.path.join(c.verif, "corpus", "C04")
+            args += ["-corpus", cdir]
         rc, out = c.run_harness(hb, args, timeout=1500)
         progs, summ = [], None
         for line in out.splitlines():
